@@ -15,8 +15,9 @@ the two methods is bounded (the innermost `child.parent = self` is always the ea
 `new_parent is self._parent`), so it is unrolled with a continuation instead of fuel; the
 impossible branch is the outcome `unreachable` (proved never to occur in `Proofs/Tree.lean`).
 
-`Cfg` switches between the behaviour of the pinned code (all `false`) and of the proposed
-repairs (`fixes/C13-*.patch`), one flag per patch.
+`Cfg` switches between the behaviour of the pinned code (all `false`) and of the repairs
+(`fixes/C13-*.patch`), one flag per changed statement; the harness sets the flags from
+micro-probes of the tree under test.
 -/
 namespace PwVerif.Tree
 open PwVerif
@@ -53,12 +54,19 @@ structure Cfg where
   /-- F6 `_this_child_is_already_at_a_different_label` tests membership in the children
   instead of `child.parent is self` -/
   relabelByMembership : Bool
+  /-- F7 `replace_child` refuses up front the replacement that `add_child` would only refuse after
+  the owned node is gone and the labels are swapped: this composite itself or one of its
+  ancestors (`CyclicPathError`), a node that can never have a parent (`TypeError`) -/
+  replacePrecheck : Bool
   /-- depth available to the recursion of `lexical_path` (Python's recursion limit) -/
   fuel : Nat
   deriving Repr
 
-def Cfg.pinned (fuel : Nat := 64) : Cfg := ⟨false, false, false, false, false, false, fuel⟩
-def Cfg.repaired (fuel : Nat := 64) : Cfg := ⟨true, true, true, true, true, true, fuel⟩
+def Cfg.pinned (fuel : Nat := 64) : Cfg := ⟨false, false, false, false, false, false, false, fuel⟩
+def Cfg.repaired (fuel : Nat := 64) : Cfg := ⟨true, true, true, true, true, true, true, fuel⟩
+/-- the four `fix:` commits d3d68f8, c218405, 8702aee, 53801cf (F1–F6) without
+`fixes/C13-replace-child-precheck.patch` (F7) -/
+def Cfg.sixFixes (fuel : Nat := 64) : Cfg := ⟨true, true, true, true, true, true, false, fuel⟩
 
 structure Tree where
   kind     : Nat → Kind
@@ -342,12 +350,22 @@ def newNode (cfg : Cfg) (t : Tree) (c : Nat) (l : Str) (np : Option Nat) : Tree 
     | (t1, .ok) => (t1, .ok)
     | (_, e) => (t, e)
 
-/-- `Composite.replace_child(old, new)` restricted to its ownership effects; the IO of `new`
-is assumed commensurate and unconnected (then `copy_io` and the link re-forging cannot fail) -/
+/-- F7: the ownership side of a replacement is validated before anything changes -/
+def replacePre (cfg : Cfg) (t : Tree) (p new : Nat) : Outcome :=
+  if cfg.replacePrecheck then
+    match cyclicCheck cfg t p new with
+    | .ok => if t.kind new = .workflow then .typeError else .ok
+    | e => e
+  else .ok
+
+/-- `Composite.replace_child(old, new)` restricted to its ownership effects; `old` is assumed
+unconnected and not value-linked to the IO of `p` (then `copy_io` and the link re-forging
+cannot fail, whatever the IO of `new` looks like) -/
 def replaceChild (cfg : Cfg) (t : Tree) (p old new : Nat) : Tree × Outcome :=
   if (t.kind p).isComposite = false then (t, .noMethod)
   else if t.parent old ≠ some p then (t, .valueError)
   else if t.parent new ≠ none then (t, .valueError)
+  else if replacePre cfg t p new ≠ .ok then (t, replacePre cfg t p new)
   else
     let isStarting : Bool := decide (old ∈ t.starting p)
     match removeChild cfg t p old with
@@ -361,6 +379,14 @@ def replaceChild (cfg : Cfg) (t : Tree) (p old new : Nat) : Tree × Outcome :=
       | (t3, e) => (t3, e)
     | (t1, e) => (t1, e)
 
+/-- `p.replace_child("label", new)`: `self.children[owned_node]` first -/
+def replaceChildLabel (cfg : Cfg) (t : Tree) (p : Nat) (l : Str) (new : Nat) : Tree × Outcome :=
+  if (t.kind p).isComposite = false then (t, .noMethod)
+  else
+    match lookupKey (t.children p) l with
+    | none => (t, .keyError)
+    | some old => replaceChild cfg t p old new
+
 inductive Op
   | new (c : Nat) (label : Str) (np : Option Nat)
   | add (p c : Nat) (lbl : Option Str) (strict : Option Bool)
@@ -369,6 +395,7 @@ inductive Op
   | remove (p c : Nat)
   | removeLabel (p : Nat) (l : Str)
   | replace (p old new : Nat)
+  | replaceLabel (p : Nat) (l : Str) (new : Nat)
   | setStarting (p : Nat) (l : List Nat)
   deriving Repr
 
@@ -380,6 +407,7 @@ def step (cfg : Cfg) (t : Tree) : Op → Tree × Outcome
   | .remove p c => removeChild cfg t p c
   | .removeLabel p l => removeChildLabel cfg t p l
   | .replace p o n => replaceChild cfg t p o n
+  | .replaceLabel p l n => replaceChildLabel cfg t p l n
   | .setStarting p l => ({ t with starting := updF t.starting p l }, .ok)
 
 def run (cfg : Cfg) (t : Tree) (ops : List Op) : Tree := ops.foldl (fun t o => (step cfg t o).1) t
